@@ -88,6 +88,7 @@ fn canon(rng: &mut (impl RngCore + rand_core::CryptoRng)) -> [u8; 32] {
 pub fn c15(opts: &Opts, out: &mut Out) {
     let mut rng = chacha(opts.seed, 15);
     serde_visitor_protocol(out, "C15", &sample_proofs(opts));
+    serde_serializer_protocol(out, "C15", &sample_proofs(opts));
     let mut counts = std::collections::BTreeMap::new();
     // (a) structured: tag x rounds x length offsets, well-formed content
     let build = |d: u8, k: usize, rng: &mut rand_chacha::ChaCha12Rng| {
@@ -389,4 +390,89 @@ pub fn sample_proofs(opts: &Opts) -> Vec<Vec<u8>> {
             inst.prove(&mut rng).ok().map(|p| p.to_bytes())
         })
         .collect()
+}
+
+/// **The `Serialize` implementation under any data format.** Whatever the format says about itself (human readable
+/// or not — bincode says not, serde's default says yes), the proof is handed over as ONE byte string, and that string is
+/// `to_bytes()`: the serde form is the canonical byte form, and what one side writes the other side reads.
+pub fn serde_serializer_protocol(out: &mut Out, prop: &str, good: &[Vec<u8>]) {
+    use serde::ser::{self, Impossible, Serializer};
+    #[derive(Debug)]
+    enum Got {
+        Bytes(Vec<u8>),
+        Other(&'static str),
+    }
+    struct Capture {
+        human: bool,
+    }
+    macro_rules! other {
+        ($($name:ident($($arg:ty),*)),* $(,)?) => {
+            $(fn $name(self, $(_: $arg),*) -> Result<Got, Self::Error> { Ok(Got::Other(stringify!($name))) })*
+        };
+    }
+    impl Serializer for Capture {
+        type Ok = Got;
+        type Error = serde::de::value::Error;
+        type SerializeSeq = Impossible<Got, Self::Error>;
+        type SerializeTuple = Impossible<Got, Self::Error>;
+        type SerializeTupleStruct = Impossible<Got, Self::Error>;
+        type SerializeTupleVariant = Impossible<Got, Self::Error>;
+        type SerializeMap = Impossible<Got, Self::Error>;
+        type SerializeStruct = Impossible<Got, Self::Error>;
+        type SerializeStructVariant = Impossible<Got, Self::Error>;
+        fn is_human_readable(&self) -> bool {
+            self.human
+        }
+        fn serialize_bytes(self, v: &[u8]) -> Result<Got, Self::Error> {
+            Ok(Got::Bytes(v.to_vec()))
+        }
+        other! {
+            serialize_bool(bool), serialize_i8(i8), serialize_i16(i16), serialize_i32(i32), serialize_i64(i64),
+            serialize_u8(u8), serialize_u16(u16), serialize_u32(u32), serialize_u64(u64), serialize_f32(f32), serialize_f64(f64),
+            serialize_char(char), serialize_str(&str), serialize_none(), serialize_unit(), serialize_unit_struct(&'static str),
+            serialize_unit_variant(&'static str, u32, &'static str),
+        }
+        fn serialize_some<T: ?Sized + ser::Serialize>(self, _: &T) -> Result<Got, Self::Error> {
+            Ok(Got::Other("serialize_some"))
+        }
+        fn serialize_newtype_struct<T: ?Sized + ser::Serialize>(self, _: &'static str, _: &T) -> Result<Got, Self::Error> {
+            Ok(Got::Other("serialize_newtype_struct"))
+        }
+        fn serialize_newtype_variant<T: ?Sized + ser::Serialize>(self, _: &'static str, _: u32, _: &'static str, _: &T) -> Result<Got, Self::Error> {
+            Ok(Got::Other("serialize_newtype_variant"))
+        }
+        fn serialize_seq(self, _: Option<usize>) -> Result<Self::SerializeSeq, Self::Error> {
+            Err(ser::Error::custom("sequence"))
+        }
+        fn serialize_tuple(self, _: usize) -> Result<Self::SerializeTuple, Self::Error> {
+            Err(ser::Error::custom("tuple"))
+        }
+        fn serialize_tuple_struct(self, _: &'static str, _: usize) -> Result<Self::SerializeTupleStruct, Self::Error> {
+            Err(ser::Error::custom("tuple struct"))
+        }
+        fn serialize_tuple_variant(self, _: &'static str, _: u32, _: &'static str, _: usize) -> Result<Self::SerializeTupleVariant, Self::Error> {
+            Err(ser::Error::custom("tuple variant"))
+        }
+        fn serialize_map(self, _: Option<usize>) -> Result<Self::SerializeMap, Self::Error> {
+            Err(ser::Error::custom("map"))
+        }
+        fn serialize_struct(self, _: &'static str, _: usize) -> Result<Self::SerializeStruct, Self::Error> {
+            Err(ser::Error::custom("struct"))
+        }
+        fn serialize_struct_variant(self, _: &'static str, _: u32, _: &'static str, _: usize) -> Result<Self::SerializeStructVariant, Self::Error> {
+            Err(ser::Error::custom("struct variant"))
+        }
+    }
+    for bytes in good {
+        let Ok(p) = rrun::Proof::from_bytes(bytes) else { continue };
+        for human in [false, true] {
+            let key = format!("serializer human_readable={} proof of {} bytes", human, bytes.len());
+            match std::panic::catch_unwind(|| serde::Serialize::serialize(&p, Capture { human })) {
+                Err(_) => out.oracle(&format!("{}:serde-produces-same", prop), false, &key, "serialisation panicked"),
+                Ok(Ok(Got::Bytes(b))) => out.oracle(&format!("{}:serde-produces-same", prop), b == *bytes, &key, "the byte string handed to the data format is not to_bytes()"),
+                Ok(Ok(Got::Other(m))) => out.oracle(&format!("{}:serde-produces-same", prop), false, &key, &format!("the proof was handed to the data format through {} instead of as one byte string", m)),
+                Ok(Err(_)) => out.oracle(&format!("{}:serde-produces-same", prop), false, &key, "the proof was handed to the data format as a compound value"),
+            }
+        }
+    }
 }
